@@ -648,7 +648,7 @@ def judge_c02_group(cases, lab):
                 res.bad("runs-per-evaluation", "dataset node %d ran %d times in one evaluation; the specification permits %d" % (
                     d, n, permit.get(d, 0)))
         # (5) effects: once per body run of their dataset, after it, with its value
-        _check_effects(res, log1, nodes)
+        _check_effects(res, log1, nodes, first)
         if not first["ok"]:
             continue
         res.nontrivial = True
@@ -696,6 +696,24 @@ def judge_c02_group(cases, lab):
             late = []
             g.root.add_effects(lambda v, _l=late: _l.append(v))
             rid = len(nodes)
+            # what is stored stays stored: attaching an effect, or switching the dataset's effects off and on
+            # again, neither recomputes nor re-runs effects for options that were already evaluated
+            o0 = dec(cases[0]["a"]["o"])
+            if first["ok"] and root_nd.get("cache", "mem") == "mem":
+                for step in ("add_effects", "disable_effects", "enable_effects"):
+                    if step == "disable_effects":
+                        g.root.disable_effects()
+                    elif step == "enable_effects":
+                        g.root.enable_effects()
+                    n0, l0 = len(g.log), len(late)
+                    again = observe.call(lambda: g.root.evaluate(copy.deepcopy(o0)), lab)
+                    new = [e for e in g.log[n0:] if e[0] in ("body", "callback", "effect") and e[3] == rid]
+                    if new or len(late) != l0:
+                        out[id(cases[0])].bad("memo-after-" + step, "after %s() a repeated evaluation ran %s%s again" % (
+                            step, [(e[0], e[1]) for e in new][:4], " and the late effect" if len(late) != l0 else ""))
+                    if not same_outcome(first, again):
+                        out[id(cases[0])].bad("memo-value-after-" + step, "after %s() a repeated evaluation returned %s instead of %s" % (
+                            step, observe.describe(again), observe.describe(first)))
             for c in cases[1:]:
                 o2 = dec(c["a"]["o"])
                 n0, l0 = len(g.log), len(late)
@@ -735,12 +753,25 @@ def _cached_body_ids(nodes):
     return out
 
 
-def _check_effects(res, log, nodes):
-    """Each effect entry must directly follow (body [, callback]) of its dataset with that value."""
-    last_val = {}
+def _check_effects(res, log, nodes, outcome=None):
+    """Each effect entry must follow (body [, callback]) of its dataset, with that dataset's VALUE: what its
+    callback returned (the value the evaluation returns and the cache stores), not the raw body result."""
+    last_cb = {}
     for e in log:
-        if e[0] == "dsvalue":
-            last_val[e[1]] = e[2]
+        if e[0] == "callback":
+            last_cb[e[3]] = (e[1], e[2])
+        if e[0] == "effect" and e[1] not in ("ep", "le") and e[3]:
+            d = e[3]
+            nd = nodes[d - 1]
+            if nd["k"] == "ds" and nd["cb"] and d in last_cb:
+                name, args = last_cb[d]
+                expv = None if name == "none" else ("T", name, tuple(args))
+                if not strict_eq(e[2][0], expv):
+                    res.bad("effect-value", "effect %s of dataset node %s received %s; the dataset's value (after its callback) is %s" % (
+                        e[1], d, show(e[2][0]), show(expv)))
+            if d == len(nodes) and outcome is not None and outcome["ok"] and not outcome.get("lazy") and not strict_eq(e[2][0], outcome["v"]):
+                res.bad("effect-value", "effect %s of the evaluated dataset received %s; the evaluation returned %s" % (
+                    e[1], show(e[2][0]), show(outcome["v"])))
     # detailed order check: effects of dataset d appear only after a body run of d in this log
     seen_body = set()
     for e in log:
